@@ -58,7 +58,7 @@ def stmt_paths(stmts, facts, defs, flag, probe=None, opaque_loops=False):
             if isinstance(t, ast.Name) and isinstance(t.ctx, (ast.Store, ast.Del)):
                 df.pop(t.id, None)
         if probe is not None and not opaque_loops:
-            probe(st, facts)
+            probe(st, facts, defs)
         for r in cont(facts, df):
             yield r
     elif isinstance(st, ast.Raise):
@@ -76,7 +76,7 @@ def stmt_paths(stmts, facts, defs, flag, probe=None, opaque_loops=False):
         yield ("continue", facts, defs)
     elif isinstance(st, (ast.Expr, ast.Pass)):
         if probe is not None:
-            probe(st, facts)
+            probe(st, facts, defs)
         for r in cont(facts, defs):
             yield r
     elif opaque_loops and isinstance(st, (ast.For, ast.While)):
